@@ -58,6 +58,21 @@ Proof.
       * right. repeat split; try reflexivity. simpl. symmetry. exact Hn.
 Qed.
 
+Lemma cur_code_frame m m' : s_db m' = s_db m -> s_cache m' = s_cache m -> s_objs m' = s_objs m ->
+  forall a, cur_code m' a = cur_code m a.
+Proof. intros Hd Hc Ho a. unfold cur_code. rewrite Ho, (load_code_frame m m' Hd Hc). reflexivity. Qed.
+
+Lemma get_obj_revert_code m a a' : cur_code (fst (get_obj_revert m a)) a' = cur_code m a'.
+Proof.
+  unfold get_obj_revert. destruct (aget a (s_objs m)) as [o|] eqn:Ea; [reflexivity|].
+  destruct (load_obj m a) as [o|] eqn:El; cbn [fst].
+  - rewrite cur_code_put_obj. destruct (a' =? a) eqn:E; [| reflexivity].
+    apply N.eqb_eq in E. subst a'. unfold cur_code, load_code. rewrite Ea, El. reflexivity.
+  - rewrite (cur_code_frame (put_obj m a (new_obj m)) (set_bad (put_obj m a (new_obj m)))); try reflexivity.
+    rewrite cur_code_put_obj. destruct (a' =? a) eqn:E; [| reflexivity].
+    apply N.eqb_eq in E. subst a'. unfold cur_code, load_code. rewrite Ea, El. reflexivity.
+Qed.
+
 (** * the views after reverting one entry (no invariant needed) *)
 Definition undo_st (m : st) (c : change) (a' : N) (k' : bytes) : bytes :=
   match c with
@@ -80,6 +95,13 @@ Definition undo_cache (m : st) (c : change) : cache :=
   match c with
   | ChCreate a => mkCache (adel a (c_acct (s_cache m))) (c_st (s_cache m)) (c_code (s_cache m))
   | _ => s_cache m
+  end.
+
+Definition undo_code (m : st) (c : change) (a' : N) : bytes :=
+  match c with
+  | ChCode a p => if a' =? a then nb p else cur_code m a'
+  | ChCreate a => if a' =? a then nb (load_code (set_cache m (undo_cache m c)) a') else cur_code m a'
+  | _ => cur_code m a'
   end.
 
 Lemma copy_or_new_view x : acct_view (Some (copy_or_new x)) = acct_view x.
@@ -153,13 +175,50 @@ Proof.
       * reflexivity.
 Qed.
 
+Lemma load_code_del_other m a a' c' : a' <> a ->
+  c' = mkCache (adel a (c_acct (s_cache m))) (c_st (s_cache m)) (c_code (s_cache m)) ->
+  load_code (set_cache m c') a' = load_code m a'.
+Proof.
+  intros Hne ->. unfold load_code, load_obj, cached_code, db_code. cbn [s_cache set_cache s_db c_acct c_code].
+  rewrite aget_adel. destruct (a' =? a) eqn:E; [apply N.eqb_eq in E; contradiction|].
+  destruct (aget a' (c_acct (s_cache m))); [reflexivity|]. destruct (aget a' (d_acct (s_db m))); reflexivity.
+Qed.
+
+Lemma revert_change_code e m c a' : cur_code (revert_change e m c) a' = undo_code m c a'.
+Proof.
+  destruct c as [a | a p | a p | a k p | a p]; cbn [revert_change].
+  - cbv zeta. unfold undo_code, cur_code. cbn [s_objs set_cache set_objs]. rewrite aget_adel.
+    destruct (a' =? a) eqn:E.
+    + reflexivity.
+    + destruct (aget a' (s_objs m)) as [o|]; [reflexivity|]. f_equal.
+      rewrite <- (load_code_del_other m a a' _ (proj1 (N.eqb_neq _ _) E) eq_refl).
+      apply load_code_frame; reflexivity.
+  - pose proof (get_obj_revert_spec m a) as S. pose proof (get_obj_revert_code m a) as Hcc.
+    destruct (get_obj_revert m a) as [m1 o]. cbn [fst] in Hcc. destruct S as [Ho _].
+    cbv zeta. rewrite cur_code_put_obj. unfold undo_code. destruct (a' =? a) eqn:E; [| apply Hcc].
+    apply N.eqb_eq in E. subst a'. rewrite <- Hcc, (cur_code_at m1 a o Ho). reflexivity.
+  - pose proof (get_obj_revert_spec m a) as S. pose proof (get_obj_revert_code m a) as Hcc.
+    destruct (get_obj_revert m a) as [m1 o]. cbn [fst] in Hcc. destruct S as [Ho _].
+    cbv zeta. rewrite cur_code_put_obj. unfold undo_code. destruct (a' =? a) eqn:E; [| apply Hcc].
+    apply N.eqb_eq in E. subst a'. rewrite <- Hcc, (cur_code_at m1 a o Ho). reflexivity.
+  - pose proof (get_obj_revert_spec m a) as S. pose proof (get_obj_revert_code m a) as Hcc.
+    destruct (get_obj_revert m a) as [m1 o]. cbn [fst] in Hcc. destruct S as [Ho _].
+    cbv zeta. rewrite cur_code_put_obj. unfold undo_code. destruct (a' =? a) eqn:E; [| apply Hcc].
+    apply N.eqb_eq in E. subst a'. rewrite <- Hcc, (cur_code_at m1 a o Ho). reflexivity.
+  - pose proof (get_obj_revert_spec m a) as S. pose proof (get_obj_revert_code m a) as Hcc.
+    destruct (get_obj_revert m a) as [m1 o]. cbn [fst] in Hcc. destruct S as [Ho _].
+    cbv zeta. rewrite cur_code_put_obj. unfold undo_code. destruct (a' =? a) eqn:E; [reflexivity | apply Hcc].
+Qed.
+
 (** * states with the same views *)
 Record view_eq (m1 m2 : st) : Prop := {
   ve_db : s_db m1 = s_db m2;
   ve_cache : s_cache m1 = s_cache m2;
   ve_chg : s_chg m1 = s_chg m2;
   ve_st : forall a k, cur_st m1 a k = cur_st m2 a k;
-  ve_ac : forall a, acct_view (cur_oacct m1 a) = acct_view (cur_oacct m2 a)
+  (* nonce and balance; the code hash is not a view: a reverted SetCode leaves the hash of the restored code *)
+  ve_ac : forall a, fst (acct_view (cur_oacct m1 a)) = fst (acct_view (cur_oacct m2 a));
+  ve_code : forall a, cur_code m1 a = cur_code m2 a
 }.
 
 Lemma view_eq_refl m : view_eq m m.
@@ -171,7 +230,7 @@ Proof. intros Hd Hc a k. unfold fl_st, cached_state. rewrite Hd, Hc. reflexivity
 Lemma revert_change_view_eq e m1 m2 c :
   view_eq m1 m2 -> view_eq (revert_change e m1 c) (revert_change e m2 c).
 Proof.
-  intros [Vd Vc Vg Vs Va].
+  intros [Vd Vc Vg Vs Va Vco].
   destruct (revert_change_views e m1 c) as [D1 [C1 [G1 [S1 [A1 _]]]]].
   destruct (revert_change_views e m2 c) as [D2 [C2 [G2 [S2 [A2 _]]]]].
   constructor.
@@ -180,11 +239,19 @@ Proof.
   - congruence.
   - intros a k. rewrite S1, S2. unfold undo_st. rewrite !Vs.
     rewrite (fl_st_of_db_cache m1 m2 Vd Vc). reflexivity.
-  - intros a. rewrite A1, A2. unfold undo_ac. rewrite Va, Vd. reflexivity.
+  - intros a0. rewrite A1, A2. unfold undo_ac. pose proof (Va a0) as Hv. rewrite Vd.
+    destruct (acct_view (cur_oacct m1 a0)) as [[n1 b1] c1]. destruct (acct_view (cur_oacct m2 a0)) as [[n2 b2] c2].
+    cbn in Hv. inversion Hv; subst.
+    destruct c as [a | a p | a p | a k p | a p]; try destruct (a0 =? a); reflexivity.
+  - intros a. rewrite !revert_change_code. unfold undo_code. rewrite !Vco.
+    destruct c; try reflexivity. destruct (a =? a0); [| reflexivity]. f_equal.
+    apply load_code_frame; [exact Vd|]. cbn [s_cache set_cache undo_cache]. rewrite Vc. reflexivity.
 Qed.
 
 Lemma set_chg_view_eq m1 m2 l : view_eq m1 m2 -> view_eq (set_chg m1 l) (set_chg m2 l).
-Proof. intros [Vd Vc Vg Vs Va]. constructor; try assumption. reflexivity. Qed.
+Proof.
+  intros [Vd Vc Vg Vs Va Vco]. constructor; try assumption. reflexivity.
+Qed.
 
 Lemma revert_n_view_eq e n : forall m1 m2, view_eq m1 m2 -> view_eq (revert_n e n m1) (revert_n e n m2).
 Proof.
@@ -207,7 +274,7 @@ Definition entry_ok (m : st) (c : change) (t : list change) : Prop :=
   | ChCreate a => fl_acct m a = None /\ Forall (fun c' => ch_acct c' <> a) t /\ aget a (s_objs m) <> None
   | ChState a k _ => exists o, aget a (s_objs m) = Some o /\ kget k (o_ost o) <> None
   | ChBal a _ | ChNonce a _ => aget a (s_objs m) <> None
-  | ChCode _ _ => False
+  | ChCode a p => aget a (s_objs m) <> None /\ (p = None -> cached_code m a = None)
   end.
 
 Fixpoint live_ok (m : st) (l : list change) : Prop :=
@@ -218,12 +285,12 @@ Fixpoint live_ok (m : st) (l : list change) : Prop :=
 
 (** [entry_ok] only looks at the flushed accounts and at the objects' presence and origins *)
 Lemma entry_ok_mono m m' c t :
-  (forall a, fl_acct m' a = fl_acct m a) ->
+  (forall a, fl_acct m' a = fl_acct m a) -> (forall a, cached_code m' a = cached_code m a) ->
   (forall a o, aget a (s_objs m) = Some o ->
      exists o', aget a (s_objs m') = Some o' /\ forall k, kget k (o_ost o) <> None -> kget k (o_ost o') <> None) ->
   entry_ok m c t -> entry_ok m' c t.
 Proof.
-  intros Hf Ho. destruct c as [a | a p | a p | a k p | a p]; simpl; try tauto.
+  intros Hf Hcc Ho. destruct c as [a | a p | a p | a k p | a p]; simpl; try tauto.
   - intros [H1 [H2 H3]]. rewrite Hf. split; [exact H1|]. split; [exact H2|].
     destruct (aget a (s_objs m)) as [o|] eqn:E; [| congruence].
     destruct (Ho a o E) as [o' [E' _]]. congruence.
@@ -232,31 +299,34 @@ Proof.
   - intro H. destruct (aget a (s_objs m)) as [o|] eqn:E; [| congruence].
     destruct (Ho a o E) as [o' [E' _]]. congruence.
   - intros [o [E Hk]]. destruct (Ho a o E) as [o' [E' Hm]]. exists o'. split; [exact E' | apply Hm; exact Hk].
+  - intros [H Hp]. rewrite Hcc. split; [| exact Hp]. destruct (aget a (s_objs m)) as [o|] eqn:E; [| congruence].
+    destruct (Ho a o E) as [o' [E' _]]. congruence.
 Qed.
 
 Lemma live_ok_mono m m' l :
-  (forall a, fl_acct m' a = fl_acct m a) ->
+  (forall a, fl_acct m' a = fl_acct m a) -> (forall a, cached_code m' a = cached_code m a) ->
   (forall a o, aget a (s_objs m) = Some o ->
      exists o', aget a (s_objs m') = Some o' /\ forall k, kget k (o_ost o) <> None -> kget k (o_ost o') <> None) ->
   live_ok m l -> live_ok m' l.
 Proof.
-  intros Hf Ho. induction l as [|c t IH]; simpl; [tauto|].
+  intros Hf Hcc Ho. induction l as [|c t IH]; simpl; [tauto|].
   intros [H1 H2]. split; [eapply entry_ok_mono; eassumption | apply IH; exact H2].
 Qed.
 
 (** entries that do not mention an account survive the removal of its object *)
 Lemma live_ok_remove m m' a l :
-  (forall b, fl_acct m' b = fl_acct m b) ->
+  (forall b, fl_acct m' b = fl_acct m b) -> (forall b, cached_code m' b = cached_code m b) ->
   (forall b, b <> a -> aget b (s_objs m') = aget b (s_objs m)) ->
   Forall (fun c' => ch_acct c' <> a) l -> live_ok m l -> live_ok m' l.
 Proof.
-  intros Hf Ho. induction l as [|c t IH]; simpl; [tauto|].
+  intros Hf Hcc Ho. induction l as [|c t IH]; simpl; [tauto|].
   intros F [H1 H2]. inversion F as [|? ? Hc Ft]; subst. split; [| apply IH; assumption].
   destruct c as [b | b p | b p | b k p | b p]; simpl in *; try tauto.
   - destruct H1 as [G1 [G2 G3]]. rewrite Hf, (Ho b Hc). tauto.
   - rewrite (Ho b Hc). exact H1.
   - rewrite (Ho b Hc). exact H1.
   - rewrite (Ho b Hc). exact H1.
+  - rewrite (Ho b Hc), Hcc. exact H1.
 Qed.
 
 Lemma Inv_remove_obj e m a : Inv m -> aget a (c_acct (s_cache m)) = None ->
@@ -266,10 +336,15 @@ Proof.
   change (s_cache (set_objs m (adel a (s_objs m)))) with (s_cache m).
   assert (Hcache : mkCache (adel a (c_acct (s_cache m))) (c_st (s_cache m)) (c_code (s_cache m)) = s_cache m).
   { unfold adel. rewrite (aremove_absent N.eqb a _ Hc). destruct (s_cache m); reflexivity. }
-  rewrite Hcache. destruct I as [J1 J2 J3 J4 J5 J6]. constructor; simpl; try assumption.
+  rewrite Hcache. set (m' := set_cache (set_objs m (adel a (s_objs m))) (s_cache m)).
+  assert (Hfc : forall b, fl_ch m' b = fl_ch m b) by (intro b; unfold fl_ch; rewrite (fl_acct_frame m m'); reflexivity).
+  destruct I as [J1 J2 J3 J4 J5]. constructor.
   - apply (aremove_NoDup N.eqb N_eqb_spec). exact J1.
-  - intros a' o Hg. rewrite aget_adel in Hg. destruct (a' =? a); [discriminate|].
+  - intros a' o Hg. cbn [m' s_objs set_cache set_objs] in Hg. rewrite aget_adel in Hg. destruct (a' =? a); [discriminate|].
     apply (ObjOk_frame m); [reflexivity | reflexivity | apply J2; exact Hg].
+  - intro b. rewrite Hfc, (cached_code_frame m m'); [apply J3 | reflexivity | reflexivity].
+  - intro b. rewrite Hfc, (cached_code_frame m m'); [apply J4 | reflexivity | reflexivity].
+  - exact J5.
 Qed.
 
 Lemma fl_acct_none_cache m a : fl_acct m a = None -> aget a (c_acct (s_cache m)) = None.
@@ -289,17 +364,18 @@ Proof.
     apply (live_ok_remove m _ a); try assumption.
     + intro b. unfold fl_acct. simpl. rewrite aget_adel. destruct (b =? a) eqn:Eb; [| reflexivity].
       apply N.eqb_eq in Eb. subst b. rewrite Hc. reflexivity.
+    + intro b. reflexivity.
     + intros b Hb. simpl. rewrite aget_adel. destruct (b =? a) eqn:Eb; [apply N.eqb_eq in Eb; contradiction | reflexivity].
   - (* ChBal *)
     simpl in E. destruct (aget a (s_objs m)) as [o|] eqn:Ea; [| congruence].
     unfold get_obj_revert. rewrite Ea.
     pose proof (write_dirty_obj m a o (mkAcct (ac_nonce (copy_or_new (cur_acct o))) p (ac_ch (copy_or_new (cur_acct o)))) I Ea) as W.
-    assert (Hch : ac_ch (copy_or_new (cur_acct o)) = None).
-    { unfold copy_or_new. destruct (cur_acct o) as [x|] eqn:Ec; [| reflexivity].
-      eapply cur_acct_ch_none; [apply (inv_objs m I a o Ea) | exact Ec]. }
+    assert (Hch : ac_ch (copy_or_new (cur_acct o)) = obj_ch o).
+    { unfold copy_or_new, obj_ch. destruct (cur_acct o) as [x|] eqn:Ec; reflexivity. }
     specialize (W Hch). split; [apply W|]. split; [| split; reflexivity].
     apply (live_ok_mono m); try assumption.
     + intro b. apply fl_acct_frame; reflexivity.
+    + intro b. reflexivity.
     + intros b ob Hb. rewrite put_obj_objs. destruct (b =? a) eqn:Eb.
       * apply N.eqb_eq in Eb. subst b. rewrite Ea in Hb. inversion Hb; subst ob. eexists. split; [reflexivity|]. simpl. tauto.
       * exists ob. split; [exact Hb | tauto].
@@ -307,12 +383,12 @@ Proof.
     simpl in E. destruct (aget a (s_objs m)) as [o|] eqn:Ea; [| congruence].
     unfold get_obj_revert. rewrite Ea.
     pose proof (write_dirty_obj m a o (mkAcct p (ac_bal (copy_or_new (cur_acct o))) (ac_ch (copy_or_new (cur_acct o)))) I Ea) as W.
-    assert (Hch : ac_ch (copy_or_new (cur_acct o)) = None).
-    { unfold copy_or_new. destruct (cur_acct o) as [x|] eqn:Ec; [| reflexivity].
-      eapply cur_acct_ch_none; [apply (inv_objs m I a o Ea) | exact Ec]. }
+    assert (Hch : ac_ch (copy_or_new (cur_acct o)) = obj_ch o).
+    { unfold copy_or_new, obj_ch. destruct (cur_acct o) as [x|] eqn:Ec; reflexivity. }
     specialize (W Hch). split; [apply W|]. split; [| split; reflexivity].
     apply (live_ok_mono m); try assumption.
     + intro b. apply fl_acct_frame; reflexivity.
+    + intro b. reflexivity.
     + intros b ob Hb. rewrite put_obj_objs. destruct (b =? a) eqn:Eb.
       * apply N.eqb_eq in Eb. subst b. rewrite Ea in Hb. inversion Hb; subst ob. eexists. split; [reflexivity|]. simpl. tauto.
       * exists ob. split; [exact Hb | tauto].
@@ -322,20 +398,31 @@ Proof.
     split; [apply W|]. split; [| split; reflexivity].
     apply (live_ok_mono m); try assumption.
     + intro b. apply fl_acct_frame; reflexivity.
+    + intro b. reflexivity.
     + intros b ob Hb. rewrite put_obj_objs. destruct (b =? a) eqn:Eb.
       * apply N.eqb_eq in Eb. subst b. rewrite Ea in Hb. inversion Hb; subst ob. eexists. split; [reflexivity|]. simpl. tauto.
       * exists ob. split; [exact Hb | tauto].
-  - contradiction.
+  - (* ChCode *)
+    destruct E as [Hp Hnone]. destruct (aget a (s_objs m)) as [o|] eqn:Ea; [| congruence].
+    unfold get_obj_revert. rewrite Ea.
+    pose proof (write_code_obj m a o p I Ea Hnone) as W.
+    split; [apply W|]. split; [| split; reflexivity].
+    apply (live_ok_mono m); try assumption.
+    + intro b. apply fl_acct_frame; reflexivity.
+    + intro b. reflexivity.
+    + intros b ob Hb. rewrite put_obj_objs. destruct (b =? a) eqn:Eb.
+      * apply N.eqb_eq in Eb. subst b. rewrite Ea in Hb. inversion Hb; subst ob. eexists. split; [reflexivity|]. simpl. tauto.
+      * exists ob. split; [exact Hb | tauto].
 Qed.
 
-Lemma Inv_set_chg m l : Inv m -> Inv (set_chg m l).
+Lemma Inv_set_chg {e : env} m l : Inv m -> Inv (set_chg m l).
 Proof. apply Inv_frame; reflexivity. Qed.
 
 Lemma live_ok_set_chg m l t : live_ok m t -> live_ok (set_chg m l) t.
-Proof. apply live_ok_mono; [reflexivity|]. intros a o H. exists o. split; [exact H | tauto]. Qed.
+Proof. apply live_ok_mono; [reflexivity | reflexivity |]. intros a o H. exists o. split; [exact H | tauto]. Qed.
 
 Lemma entry_ok_set_chg m l c t : entry_ok m c t -> entry_ok (set_chg m l) c t.
-Proof. apply entry_ok_mono; [reflexivity|]. intros a o H. exists o. split; [exact H | tauto]. Qed.
+Proof. apply entry_ok_mono; [reflexivity | reflexivity |]. intros a o H. exists o. split; [exact H | tauto]. Qed.
 
 (** reverting the [n] newest entries; the next [j] entries stay revertible *)
 Lemma revert_n_ok e n j : forall m,
@@ -378,7 +465,7 @@ Qed.
 
 Lemma view_eq_trans m1 m2 m3 : view_eq m1 m2 -> view_eq m2 m3 -> view_eq m1 m3.
 Proof.
-  intros [A1 A2 A3 A4 A5] [B1 B2 B3 B4 B5]. apply Build_view_eq.
+  intros [A1 A2 A3 A4 A5 A6] [B1 B2 B3 B4 B5 B6]. apply Build_view_eq; [| | | | | intro a; rewrite A6; apply B6].
   - congruence.
   - congruence.
   - congruence.
